@@ -219,7 +219,7 @@ KINDS = {
     "C14": ["ViewEquiv", "Crash", "Sanitizer"],
     "C16": ["Find", "Crash"],
     "C17": ["Export", "Crash"],
-    "C18": ["Counters", "WrapperPreservesResults", "Crash"],
+    "C18": ["Counters", "WrapperPreservesResults", "Arg", "Crash"],      # (Arg: the executor runs the counter wrapper around the bag kernel, whose per-callback checks see what the wrapper forwards)
 }
 
 
@@ -499,6 +499,11 @@ def check_c02(run):
     cs.append(("tsm-4d-h3", fmm_constants(4, 3, POOL_4D_H3[:3], mode="tsm", maxparts=2, bss=(1, 2))))
     cs.append(("tsm-2d-h3-per", fmm_constants(2, 3, [0, 3, 15], mode="tsm", periodic=True, stops=(1,), maxparts=2, bss=(1, 2))))
     run_fmm_configs(run, "C02", cs, cap=256)
+    # the arguments handed to the kernels by the task executors when tasks run late (level, codes, groups captured at creation vs read at run time)
+    for name, consts in [("omp-1d-h5", fmm_constants(1, 5, POOL_1D_H5[:6], bss=(1, 2, 20))), ("omp-tsm-1d-h5", fmm_constants(1, 5, POOL_1D_H5[:4], mode="tsm", bss=(1, 2, 20))),
+                         ("omp-2d-h4", fmm_constants(2, 4, POOL_2D_H4[:5], bss=(1, 20)))]:
+        opairs, mism, _ = omp_campaign(run, "C02-" + name, consts, run.tier, graphs=0)
+        report_mismatches(run, "C02", "C02-" + name, opairs, [(k, re.sub(r"-(immediate|deferred|tlc)-.*$", "", key), "%s [%s]" % (t, key)) for k, key, t in mism], ["Arg", "Crash"])
     trace_campaign(run, "C02", run.tier, modes=(0, 1), events=4)
     run.coverage["rule"] = FMM_RULE + "; every operator call made by the library is checked: particles inside the leaf box with original index and data, children distinct children of the parent with true octant codes, sources at the encoded offset (modulo the box when periodic), well separated / adjacent, at the stated level, never an empty list"
     run.coverage["exhaustive"] = True
